@@ -27,6 +27,7 @@ def reader(name):
         "packed": [F("v", 1, "sint32", "repeated")],
         "repstring": [F("v", 1, "string", "repeated")],
         "packfix": [F("v", 1, "fixed32", "repeated"), F("w", 2, "double", "repeated")],
+        "packbool": [F("v", 1, "bool", "repeated"), F("u", 3, "uint64", "repeated")],
         "map": [F("v", 1, "string", "map", key="int32")],
         "oneof": [F("a", 1, "int32", group="g"), F("b", 2, "string", group="g"), F("c", 3, "message", group="g", msg="Leaf")],
         "optional": [F("v", 1, "int32", "optional"), F("w", 2, "message", wraps="string")],
@@ -195,7 +196,7 @@ def h_wiretype(env):
     judge(env, cat, before + sw.tag(f.number, wt) + payload)
 
 
-READERS = ["int32", "sint64", "bool", "fixed32", "double", "string", "bytes", "message", "packed", "repstring", "map", "oneof", "optional", "two", "rep+single", "packfix"]
+READERS = ["int32", "sint64", "bool", "fixed32", "double", "string", "bytes", "message", "packed", "repstring", "map", "oneof", "optional", "two", "rep+single", "packfix", "packbool"]
 
 
 def units(tier):
